@@ -264,29 +264,31 @@ var costKey = map[string]string{"ChangeOwnerAddress": "ChangeOwnerAddress", "Cla
 	"ESDTNFTCreate": "ESDTNFTCreate", "ESDTNFTAddQuantity": "ESDTNFTAddQuantity", "ESDTNFTBurn": "ESDTNFTBurn", "ESDTNFTTransfer": "ESDTNFTTransfer",
 	"MultiESDTNFTTransfer": "ESDTNFTMultiTransfer", "ESDTNFTAddURI": "ESDTNFTAddURI", "ESDTNFTUpdateAttributes": "ESDTNFTUpdateAttributes"}
 
-// sweepGas picks GasProvided around the interesting points: 0, the function's base cost, the total consumption, 2^64-1.
+// sweepGas picks GasProvided around the interesting points: 0, the function's base cost, the measured total consumption
+// (the neighbourhood just below it is where a guard that disagrees with the charge shows), 2^64-1.
 func (d *Ledger) sweepGas(fn string, used int64) uint64 {
 	cost := int64(d.W.Sched["BuiltInCost"][costKey[fn]])
-	var cands []uint64
-	add := func(v int64) {
-		if v >= 0 {
-			cands = append(cands, uint64(v))
+	pick := func(vs ...int64) uint64 {
+		v := vs[d.R.Intn(len(vs))]
+		if v < 0 {
+			v = 0
 		}
+		return uint64(v)
 	}
-	add(0)
-	add(cost - 1)
-	add(cost)
-	add(cost + 1)
-	if used >= 0 {
-		add(used - 1)
-		add(used)
-		add(used)
-		add(used + 1)
-		add(used + int64(d.R.Intn(50)))
-		add(used / 2)
+	p := d.R.Intn(100)
+	switch {
+	case used >= 0 && p < 45:
+		// at and just below/above the real charge; the per-byte prices are < 2^7 in every schedule the drivers use, so
+		// used-1-rand(130) covers "one or two bytes short"
+		return pick(used-1, used-1, used, used, used+1, used-1-int64(d.R.Intn(130)), used-int64(d.R.Intn(8)), used+int64(d.R.Intn(50)))
+	case p < 65:
+		return pick(cost-1, cost, cost+1, cost/2)
+	case p < 75:
+		return pick(0, 0, 1, used/2)
+	case p < 85:
+		return []uint64{^uint64(0), 1 << 63, ^uint64(0) - 1, 1<<63 - 1}[d.R.Intn(4)]
 	}
-	cands = append(cands, ^uint64(0), 1<<63, 600000, 600000, 600000)
-	return cands[d.R.Intn(len(cands))]
+	return 600000
 }
 
 // payloadLens measures, independently of the gas the function reports, the length of every marshalled
@@ -711,17 +713,23 @@ func (d *Ledger) destFor(from string) []byte {
 	return d.W.Addr(d.otherAcct(from))
 }
 
+func byteLen(v *big.Int) int { return (v.BitLen() + 7) / 8 }
+
+// atBoundary: one more unit makes the encoded amount one byte longer (255 -> 256, 65535 -> 65536 at scale 1; other points at other scales).
+func (d *Ledger) atBoundary(v *big.Int) bool {
+	return v.Sign() > 0 && byteLen(new(big.Int).Add(v, d.Scale)) > byteLen(v)
+}
+
 // boundaryMerge looks for a sender and a same-shard destination that both hold the same NFT such that one more unit at the destination
-// makes its amount one byte longer (255 -> 256, 65535 -> 65536): the payload that is copied (and charged) grows by a byte.
+// makes its amount one byte longer: the payload that is copied (and charged) grows by a byte.
 func (d *Ledger) boundaryMerge() (from, to string, tok []byte, nonce uint64, ok bool) {
 	hs := d.nftHoldings()
 	for _, a := range hs {
 		for _, b := range hs {
-			if a.acct == b.acct || !bytes.Equal(a.key, b.key) {
+			if a.acct == b.acct || !bytes.Equal(a.key, b.key) || d.shardOfName(a.acct) != d.shardOfName(b.acct) {
 				continue
 			}
-			v := d.q(b.val)
-			if (v == 255 || v == 65535) && d.q(a.val) >= 1 {
+			if d.atBoundary(b.val) && a.val.Cmp(d.Scale) >= 0 {
 				return a.acct, b.acct, a.tok, a.nonce, true
 			}
 		}
@@ -729,11 +737,55 @@ func (d *Ledger) boundaryMerge() (from, to string, tok []byte, nonce uint64, ok 
 	return
 }
 
+// boundarySetup moves just enough units of a semi-fungible holding to a same-shard user so that the destination ends up one unit below
+// a byte-length boundary of the amount encoding (the state boundaryMerge looks for).
+func (d *Ledger) boundarySetup() bool {
+	for _, h := range d.nftHoldings() {
+		have := d.q(h.val)
+		if have < 3 || d.W.Info(h.acct).Kind == "junk" {
+			continue
+		}
+		for _, u := range d.Users {
+			if u == h.acct || d.shardOfName(u) != d.shardOfName(h.acct) {
+				continue
+			}
+			held := int64(0)
+			for _, b := range d.nftHoldings() {
+				if b.acct == u && bytes.Equal(b.key, h.key) {
+					held = d.q(b.val)
+				}
+			}
+			if held < 0 {
+				continue
+			}
+			// the smallest total m > held (reachable with what the sender has, keeping one unit) that sits just below a boundary
+			lim := held + have - 1
+			if lim > held+70000 {
+				lim = held + 70000
+			}
+			for m := held + 1; m <= lim; m++ {
+				if d.atBoundary(new(big.Int).Mul(big.NewInt(m), d.Scale)) {
+					c := d.call("ESDTNFTTransfer", h.acct, h.acct, h.tok, nb(h.nonce), d.amt(m-held), d.W.Addr(u))
+					c.RAE = false
+					d.T.Stats["boundary-setup"]++
+					d.record("exec", d.shardOfName(h.acct), c)
+					return true
+				}
+			}
+		}
+	}
+	return false
+}
+
 func (d *Ledger) actNFTTransfer() {
 	if from, to, tok, nonce, ok := d.boundaryMerge(); ok && d.chance(50) {
 		c := d.call("ESDTNFTTransfer", from, from, tok, nb(nonce), d.amt(1), d.W.Addr(to))
 		c.RAE = false
+		d.T.Stats["boundary-merge"]++
 		d.record("exec", d.shardOfName(from), c)
+		return
+	}
+	if d.chance(12) && d.boundarySetup() {
 		return
 	}
 	hs := d.nftHoldings()
